@@ -115,7 +115,7 @@ def pos_of(p):
 class C03(Property):
     ID = "C03"
     SESSIONS = ["s0", "s1"]
-    RUNS = {"quick": (500, 400), "thorough": (12000, 8000)}
+    RUNS = {"quick": (4000, 3000), "thorough": (80000, 60000)}
 
     def config(self, rng, tier, faulty):
         cfg = {
